@@ -580,7 +580,7 @@ def build_reviewed(run, prog):
         ok = rx.included(unc, rx.dfa_of(rb"(?s)(?:[^\\]*\\){4,}[^\\]*", "any", "any"))
         return ok, "every WINDOWS_PATH_RE match starting with two backslashes has at least four backslashes (>= 5 segments); ntpath.normpath keeps the \\\\server\\share root"
     for frag in ("segments[3]", "segments[4]", "segments[2]"):
-        out[("decoders.path.find_windows_path", "subscript", frag)] = ("UNC / device paths have at least five segments", win_segments)
+        out[("decoders.path.*", "subscript", frag)] = ("UNC / device paths have at least five segments", win_segments)      # any function of the module (a helper may build the node)
 
     def c14_lemma(rules):
         def cond():
